@@ -39,7 +39,10 @@ def generate(rng, tier):
         ops = []
         _gap(rng, ops, 0.8)
         for j in range(rng.randint(1, 4)):
-            ops.append({"op": "put", "on": "C", "v": p * 100 + j})
+            value = p * 100 + j
+            if value in (0, 1, 101) and rng.random() < 0.5:
+                value = {0: 0, 1: None, 101: ""}[value]      # falsy and None are legal messages
+            ops.append({"op": "put", "on": "C", "v": value})
             _gap(rng, ops)
         actors.append({"name": "p%d" % p, "ops": ops})
     for c in range(rng.randint(1, 4)):
